@@ -894,7 +894,7 @@ def r6(ctx):
     f = ctx.fn(MOLITER, 'MoleculeIterator.__iter__')
     mod = ctx.ix.module(MOLITER)
     sites = [c for c in walk_no_nested(f) if isinstance(c, ast.Call) and isinstance(c.func, ast.Attribute) and c.func.attr == 'add_fragment']
-    ctx.need('C07-R6', len(sites), 2, 'add_fragment call sites in MoleculeIterator.__iter__')
+    ctx.need('C07-R6', len(sites), 1, 'add_fragment call sites in MoleculeIterator.__iter__')
     for k, c in enumerate(sorted(sites, key=lambda c: (c.lineno, c.col_offset))):
         # eager evaluation over all molecules (list / set comprehension) lets several molecules accept the same fragment; a generator inside
         # any() stops at the first acceptance and is fine
